@@ -275,7 +275,7 @@ def sender_run(ctx):
     import concurrent.futures
     msgs = list(SENDER_MSGS)
     if ctx.tier == "thorough":
-        msgs.append(("gpu", "update_scanout", "valid", 300000))
+        msgs.append(("gpu", "update_scanout", "valid", 150000))   # must fit the socket buffer: nobody reads while the call is in progress
     if ctx.replay is not None:
         cases = [c for c in ctx.replay["cases"] if c is not None]
     else:
